@@ -297,7 +297,14 @@ def unop (O : FloatOps F C) (op : String) (a : NNum F C) : Out (NNum F C) :=
   | "floor" => coerce O Rat.floor a
   | "ceil" => coerce O Rat.ceil a
   | "round" => coerce O ratRound a
-  | "int" => coerce O ratTrunc a                       -- `n.trunc()`
+  | "int" =>
+    -- `call_type1(Int)`: `match n.trunc() { Some(r @ NNum::Int(_)) => Ok(r), _ => Err(value_error) }`
+    -- (since the `fix:` commit 48f3e57 a float without an integer part — NaN, ±∞ — is an error)
+    match coerce O ratTrunc a with
+    | .ok (int i) => .ok (int i)
+    | .ok _ => .throw
+    | .throw => .throw
+    | .panic => .panic
   | "rational" => toRationalExact O a
   | "float" => toFloat O a
   | "numerator" =>
